@@ -186,7 +186,7 @@ theorem fetchRoles_trust {snap : Snapshot} {cs : Bool} (d : Deleg) (roles : List
             · rfl
             · have := ih (r.name :: visited)
                 { ds := (st.req (.role r.name (versioned cs m.version)) (m.length.getD cfg.limits.maxTargetsSize)).ds,
-                  log := .dsCreate "role" :: (st.req (.role r.name (versioned cs m.version)) (m.length.getD cfg.limits.maxTargetsSize)).log }
+                  log := .dsCreate "role" (st.req (.role r.name (versioned cs m.version)) (m.length.getD cfg.limits.maxTargetsSize)).ds :: (st.req (.role r.name (versioned cs m.version)) (m.length.getD cfg.limits.maxTargetsSize)).log }
               split
               · rename_i heq; rw [heq] at this; exact this
               · rename_i heq; rw [heq] at this; exact this
@@ -298,7 +298,7 @@ theorem loadTargets_keeps {root : Root} {snap : Snapshot} (st : St) :
                 cases doc.deleg with
                 | none => rfl
                 | some d => exact loadDelegs_trust _ d [] s
-              have ht := hsub { ds := { st1.ds with tgt := .doc doc }, log := .dsCreate "targets" :: st1.log }
+              have ht := hsub { ds := { st1.ds with tgt := .doc doc }, log := .dsCreate "targets" { st1.ds with tgt := .doc doc } :: st1.log }
               dsimp only at ht
               split
               · rename_i e st2 heq
@@ -342,7 +342,7 @@ theorem loadTargets_ok_stored {root : Root} {snap : Snapshot} {st st' : St} {t :
                 cases doc.deleg with
                 | none => rfl
                 | some d => exact loadDelegs_trust _ d [] s
-              have ht := hsub { ds := { st1.ds with tgt := .doc doc }, log := .dsCreate "targets" :: st1.log }
+              have ht := hsub { ds := { st1.ds with tgt := .doc doc }, log := .dsCreate "targets" { st1.ds with tgt := .doc doc } :: st1.log }
               dsimp only at ht
               split at h
               · simp at h
